@@ -403,6 +403,10 @@ def make_class(run, k):
         return f
 
     class Gen(plumpy.Process):
+        def __len__(self):
+            # a process class with a notion of size (remaining work items): an instance may be FALSY - and is still the process
+            return 0
+
         @classmethod
         def define(cls, spec_):
             super().define(spec_)
@@ -478,7 +482,15 @@ def make_cb(run, proc, j):
     expect = None if base is None else base + [proc._verif_pid]
     tid = run.loop._n_tasks
     raising = j in run.scn.get('cbraise', ())
-    if needs_async(code):
+    if needs_async(code) and j in run.scn.get('cbmark', ()):
+        # an OBJECT whose __call__ is a coroutine function (a configured reporter): callable, awaitable result, not a function
+        class AsyncCallable:
+            async def __call__(self):
+                await interp_async(run, proc, code, 'cbseg', 'cbaw', expect, tid)
+                if raising:
+                    raise CbBoom(base, prev)
+        cb = AsyncCallable()
+    elif needs_async(code):
         async def cb():
             await interp_async(run, proc, code, 'cbseg', 'cbaw', expect, tid)
             if raising:
